@@ -69,6 +69,7 @@ type Engine struct {
 	pkgInitHook map[string]func(*Exec, *ssa.Package)
 	nativeCache sync.Map
 	noopPkgs    []string
+	mergeFns    map[string]bool // spec "merge_funcs": functions whose symbolic tests are merged into the return value (merge.go)
 }
 
 type Config struct {
@@ -191,11 +192,19 @@ func (x *Exec) tpanic(msg string) {
 
 // ---- solver interaction ---------------------------------------------------------------
 
+// slowQueryLog (SYMGO_SLOWQ=1) reports branch/assert queries that take more than 2 s (debugging aid).
+var slowQueryLog = os.Getenv("SYMGO_SLOWQ") != ""
+
 func (x *Exec) check(extra *Term, keep bool) SatResult {
 	if len(x.injective) > 0 {
 		x.flushInjectivity()
 	}
+	t0 := time.Now()
+	fb0 := x.solver.Fallbacks
 	r, err := x.solver.Check(x.pc, extra, keep)
+	if slowQueryLog && time.Since(t0) > 2*time.Second {
+		fmt.Fprintf(os.Stderr, "slow query %.1fs (%s, fallbacks %d) trace=%s at %s\n", time.Since(t0).Seconds(), r, x.solver.Fallbacks-fb0, traceString(x.trace), x.stackString())
+	}
 	if err != nil {
 		x.end(endUnsupported, "solver error: %v", err)
 	}
@@ -386,7 +395,11 @@ func (x *Exec) concretize(t *Term, what string) uint64 {
 		if len(x.injective) > 0 {
 			x.flushInjectivity()
 		}
+		t0 := time.Now()
 		r, mv, err := x.solver.CheckModel(x.pc, excl, []*Term{t})
+		if slowQueryLog && time.Since(t0) > 2*time.Second {
+			fmt.Fprintf(os.Stderr, "slow value query %.1fs (%s) %s trace=%s at %s\n", time.Since(t0).Seconds(), r, what, traceString(x.trace), x.stackString())
+		}
 		if err != nil {
 			x.end(endUnsupported, "solver error while enumerating values of %s: %v", what, err)
 		}
@@ -606,7 +619,12 @@ func (x *Exec) modelOf(extra *Term, ts []*Term) ([]ModelVal, bool) {
 	if len(x.injective) > 0 {
 		x.flushInjectivity()
 	}
+	t0 := time.Now()
+	fb0 := x.solver.Fallbacks
 	r, mv, err := x.solver.CheckModel(x.pc, extra, ts)
+	if slowQueryLog && time.Since(t0) > 2*time.Second {
+		fmt.Fprintf(os.Stderr, "slow model query %.1fs (%s, fallbacks %d) trace=%s\n", time.Since(t0).Seconds(), r, x.solver.Fallbacks-fb0, traceString(x.trace))
+	}
 	if err != nil {
 		fmt.Fprintln(os.Stderr, "model query failed:", err)
 		return nil, false
